@@ -793,6 +793,11 @@ func NewIndexOutOfRangeError
   assigns fresh
   ensures ret != nil && fresh(ret) && ret.class == IndexErrorClass
 
+func NewBitshiftOperandError
+  trusted
+  assigns fresh
+  ensures ret != nil && fresh(ret) && ret.class == TypeErrorClass
+
 func NewCoerceError
   trusted
   assigns fresh
@@ -1243,4 +1248,877 @@ func (*SymbolTableStruct).ExistsId
   props C26 C11
   requires s != nil && lockOf(s) == 0
   ensures balance: lockOf(s) == 0
+
+// ==== C07: fixed-width integers =============================================================
+// (this block is written by /verif/tools/gen_c07_contracts.py)
+// Reference semantics: two's-complement arithmetic modulo 2^bits.  wrapW reduces a mathematical
+// integer to the representable range; shlW / asrW / lsrW are the three shifts for a count n >= 0.
+spec fn wrapW(v int, bits int, signed bool) int = ite(signed, emod(v + pow2(bits - 1), pow2(bits)) - pow2(bits - 1), emod(v, pow2(bits)))
+spec fn shlW(x int, n int, bits int, signed bool) int = ite(n >= bits, 0, wrapW(x * pow2(n), bits, signed))
+spec fn asrW(x int, n int, bits int) int = ite(n >= bits, ite(x < 0, -1, 0), ediv(x, pow2(n)))
+spec fn lsrW(x int, n int, bits int, signed bool) int = ite(n >= bits, 0, wrapW(ediv(emod(x, pow2(bits)), pow2(n)), bits, signed))
+// value of an integer operand held inline in a Value (every AnyInt except a big Int)
+spec fn cntInl(v Value) int = ite(v.flag == SMALL_INT_FLAG || v.flag == INT64_FLAG, wrapS64(v.data), ite(v.flag == INT32_FLAG, wrapS32(v.data), ite(v.flag == INT16_FLAG, wrapS16(v.data), ite(v.flag == INT8_FLAG, wrapS8(v.data), ite(v.flag == UINT32_FLAG, wrapU32(v.data), ite(v.flag == UINT16_FLAG, wrapU16(v.data), ite(v.flag == UINT8_FLAG, wrapU8(v.data), wrapU64(v.data))))))))
+spec fn isInlInt(v Value) bool = v.flag == SMALL_INT_FLAG || v.flag == INT64_FLAG || v.flag == INT32_FLAG || v.flag == INT16_FLAG || v.flag == INT8_FLAG || v.flag == UINT_FLAG || v.flag == UINT64_FLAG || v.flag == UINT32_FLAG || v.flag == UINT16_FLAG || v.flag == UINT8_FLAG
+// every right operand the headers admit (Std::AnyInt: Int of either representation and the
+// nine sized kinds); a big Int operand is canonical (C06): it does not fit a machine word
+spec fn isAnyInt(v Value) bool = wfv(v) && (isInlInt(v) || (isBig(v) && !fitsSmall(bigval(v.ptr))))
+spec rec fn ipow(b int, e int) int = ite(e <= 0, 1, b * ipow(b, e - 1))
+
+// the generic helpers behind <<, >>, <<<, >>> for a fixed-width left operand: a negative count
+// shifts the other way; a count of any size is accepted
+func StrictIntLogicalLeftBitshift
+  props C07 C01
+  instantiate Int8
+  instantiate UInt8
+  instantiate Int64
+  instantiate UInt64
+  instantiate Int32
+  instantiate Int16
+  instantiate UInt32
+  instantiate UInt16
+  instantiate UInt
+  fnparam shiftFunc(l, r): ret == lsrW(l, r, bitsof(l), issigned(l))
+  requires isAnyInt(right)
+  ensures accepted: ret1 == Undefined
+  ensures pos: isInlInt(right) && cntInl(right) >= 0 ==> ret0 == shlW(left, cntInl(right), bitsof(left), issigned(left))
+  ensures neg: isInlInt(right) && cntInl(right) < 0 ==> ret0 == lsrW(left, (-cntInl(right)), bitsof(left), issigned(left))
+  ensures bigpos: isBig(right) && bigval(right.ptr) > 0 ==> ret0 == 0
+  ensures bigneg: isBig(right) && bigval(right.ptr) < 0 ==> ret0 == 0
+
+func StrictIntLogicalRightBitshift
+  props C07 C01
+  instantiate Int8
+  instantiate UInt8
+  instantiate Int64
+  instantiate UInt64
+  instantiate Int32
+  instantiate Int16
+  instantiate UInt32
+  instantiate UInt16
+  instantiate UInt
+  fnparam shiftFunc(l, r): ret == lsrW(l, r, bitsof(l), issigned(l))
+  requires isAnyInt(right)
+  ensures accepted: ret1 == Undefined
+  ensures pos: isInlInt(right) && cntInl(right) >= 0 ==> ret0 == lsrW(left, cntInl(right), bitsof(left), issigned(left))
+  ensures neg: isInlInt(right) && cntInl(right) < 0 ==> ret0 == shlW(left, (-cntInl(right)), bitsof(left), issigned(left))
+  ensures bigpos: isBig(right) && bigval(right.ptr) > 0 ==> ret0 == 0
+  ensures bigneg: isBig(right) && bigval(right.ptr) < 0 ==> ret0 == 0
+
+func StrictIntRightBitshift
+  props C07 C01
+  instantiate Int8
+  instantiate UInt8
+  instantiate Int64
+  instantiate UInt64
+  instantiate Int32
+  instantiate Int16
+  instantiate UInt32
+  instantiate UInt16
+  instantiate UInt
+  requires isAnyInt(right)
+  ensures accepted: ret1 == Undefined
+  ensures pos: isInlInt(right) && cntInl(right) >= 0 ==> ret0 == asrW(left, cntInl(right), bitsof(left))
+  ensures neg: isInlInt(right) && cntInl(right) < 0 ==> ret0 == shlW(left, (-cntInl(right)), bitsof(left), issigned(left))
+  ensures bigpos: isBig(right) && bigval(right.ptr) > 0 ==> ret0 == ite(left < 0, -1, 0)
+  ensures bigneg: isBig(right) && bigval(right.ptr) < 0 ==> ret0 == 0
+
+func StrictIntLeftBitshift
+  props C07 C01
+  instantiate Int8
+  instantiate UInt8
+  instantiate Int64
+  instantiate UInt64
+  instantiate Int32
+  instantiate Int16
+  instantiate UInt32
+  instantiate UInt16
+  instantiate UInt
+  requires isAnyInt(right)
+  ensures accepted: ret1 == Undefined
+  ensures pos: isInlInt(right) && cntInl(right) >= 0 ==> ret0 == shlW(left, cntInl(right), bitsof(left), issigned(left))
+  ensures neg: isInlInt(right) && cntInl(right) < 0 ==> ret0 == asrW(left, (-cntInl(right)), bitsof(left))
+  ensures bigpos: isBig(right) && bigval(right.ptr) > 0 ==> ret0 == 0
+  ensures bigneg: isBig(right) && bigval(right.ptr) < 0 ==> ret0 == ite(left < 0, -1, 0)
+
+func LogicalRightShift64
+  props C07
+  instantiate Int64
+  instantiate UInt64
+  instantiate UInt
+  ensures lsr: ret == lsrW(left, right, bitsof(left), issigned(left))
+
+func LogicalRightShift32
+  props C07
+  instantiate Int32
+  instantiate UInt32
+  ensures lsr: ret == lsrW(left, right, bitsof(left), issigned(left))
+
+func LogicalRightShift16
+  props C07
+  instantiate Int16
+  instantiate UInt16
+  ensures lsr: ret == lsrW(left, right, bitsof(left), issigned(left))
+
+func LogicalRightShift8
+  props C07
+  instantiate Int8
+  instantiate UInt8
+  ensures lsr: ret == lsrW(left, right, bitsof(left), issigned(left))
+
+// ---- Int8
+func (Int8).Add
+  props C07
+  ensures accepted: other.flag == INT8_FLAG ==> ret1 == Undefined
+  ensures value: other.flag == INT8_FLAG ==> ret0 == wrapW(i + wrapS8(other.data), 8, true)
+
+func (Int8).Subtract
+  props C07
+  ensures accepted: other.flag == INT8_FLAG ==> ret1 == Undefined
+  ensures value: other.flag == INT8_FLAG ==> ret0 == wrapW(i - wrapS8(other.data), 8, true)
+
+func (Int8).Multiply
+  props C07
+  ensures accepted: other.flag == INT8_FLAG ==> ret1 == Undefined
+  ensures value: other.flag == INT8_FLAG ==> ret0 == wrapW(i * wrapS8(other.data), 8, true)
+
+func (Int8).BitwiseAnd
+  props C07
+  ensures accepted: other.flag == INT8_FLAG ==> ret1 == Undefined
+  ensures value: other.flag == INT8_FLAG ==> ret0 == i & wrapas(i, other.data)
+
+func (Int8).BitwiseAndNot
+  props C07
+  ensures accepted: other.flag == INT8_FLAG ==> ret1 == Undefined
+  ensures value: other.flag == INT8_FLAG ==> ret0 == i &^ wrapas(i, other.data)
+
+func (Int8).BitwiseOr
+  props C07
+  ensures accepted: other.flag == INT8_FLAG ==> ret1 == Undefined
+  ensures value: other.flag == INT8_FLAG ==> ret0 == i | wrapas(i, other.data)
+
+func (Int8).BitwiseXor
+  props C07
+  ensures accepted: other.flag == INT8_FLAG ==> ret1 == Undefined
+  ensures value: other.flag == INT8_FLAG ==> ret0 == i ^ wrapas(i, other.data)
+
+func (Int8).Divide
+  props C07
+  ensures accepted: other.flag == INT8_FLAG && wrapS8(other.data) != 0 ==> ret1 == Undefined
+  ensures value: other.flag == INT8_FLAG && wrapS8(other.data) != 0 ==> ret0 == wrapW(tdiv(i, wrapS8(other.data)), 8, true)
+  ensures zero: other.flag == INT8_FLAG && wrapS8(other.data) == 0 ==> ret1.flag != UNDEFINED_FLAG
+
+func (Int8).ModuloVal
+  props C07
+  ensures accepted: other.flag == INT8_FLAG && wrapS8(other.data) != 0 ==> ret1 == Undefined
+  ensures value: other.flag == INT8_FLAG && wrapS8(other.data) != 0 ==> ret0 == wrapW(tmod(i, wrapS8(other.data)), 8, true)
+  ensures zero: other.flag == INT8_FLAG && wrapS8(other.data) == 0 ==> ret1.flag != UNDEFINED_FLAG
+
+func (Int8).DivideInt8
+  props C07
+  ensures accepted: other != 0 ==> ret1 == Undefined
+  ensures value: other != 0 ==> ret0 == wrapW(tdiv(i, other), 8, true)
+  ensures zero: other == 0 ==> ret1.flag != UNDEFINED_FLAG
+
+func (Int8).ModuloInt8
+  props C07
+  ensures accepted: other != 0 ==> ret1 == Undefined
+  ensures value: other != 0 ==> ret0 == wrapW(tmod(i, other), 8, true)
+  ensures zero: other == 0 ==> ret1.flag != UNDEFINED_FLAG
+
+func (Int8).ExponentiateInt8
+  props C07
+  ensures nonpos: other <= 0 ==> ret == 1
+  ensures one: other == 1 ==> ret == i
+  ensures try pow: other > 0 ==> ret == wrapW(ipow(i, other), 8, true)
+  loop 1
+    invariant bounds: 1 <= j && j <= other
+    invariant try acc: result == wrapW(ipow(i, j), 8, true)
+    invariant first: j == 1 ==> result == i
+    decreases other - j
+
+func (Int8).ExponentiateVal
+  props C07
+  ensures accepted: other.flag == INT8_FLAG ==> ret1 == Undefined
+
+func (Int8).LeftBitshiftInt8
+  props C07
+  ensures pos: other >= 0 ==> ret == shlW(i, other, 8, true)
+  ensures neg: other < 0 ==> ret == asrW(i, -other, 8)
+
+func (Int8).RightBitshiftInt8
+  props C07
+  ensures pos: other >= 0 ==> ret == asrW(i, other, 8)
+  ensures neg: other < 0 ==> ret == shlW(i, -other, 8, true)
+
+// ---- Int16
+func (Int16).Add
+  props C07
+  ensures accepted: other.flag == INT16_FLAG ==> ret1 == Undefined
+  ensures value: other.flag == INT16_FLAG ==> ret0 == wrapW(i + wrapS16(other.data), 16, true)
+
+func (Int16).Subtract
+  props C07
+  ensures accepted: other.flag == INT16_FLAG ==> ret1 == Undefined
+  ensures value: other.flag == INT16_FLAG ==> ret0 == wrapW(i - wrapS16(other.data), 16, true)
+
+func (Int16).Multiply
+  props C07
+  ensures accepted: other.flag == INT16_FLAG ==> ret1 == Undefined
+  ensures value: other.flag == INT16_FLAG ==> ret0 == wrapW(i * wrapS16(other.data), 16, true)
+
+func (Int16).BitwiseAnd
+  props C07
+  ensures accepted: other.flag == INT16_FLAG ==> ret1 == Undefined
+  ensures value: other.flag == INT16_FLAG ==> ret0 == i & wrapas(i, other.data)
+
+func (Int16).BitwiseAndNot
+  props C07
+  ensures accepted: other.flag == INT16_FLAG ==> ret1 == Undefined
+  ensures value: other.flag == INT16_FLAG ==> ret0 == i &^ wrapas(i, other.data)
+
+func (Int16).BitwiseOr
+  props C07
+  ensures accepted: other.flag == INT16_FLAG ==> ret1 == Undefined
+  ensures value: other.flag == INT16_FLAG ==> ret0 == i | wrapas(i, other.data)
+
+func (Int16).BitwiseXor
+  props C07
+  ensures accepted: other.flag == INT16_FLAG ==> ret1 == Undefined
+  ensures value: other.flag == INT16_FLAG ==> ret0 == i ^ wrapas(i, other.data)
+
+func (Int16).Divide
+  props C07
+  ensures accepted: other.flag == INT16_FLAG && wrapS16(other.data) != 0 ==> ret1 == Undefined
+  ensures value: other.flag == INT16_FLAG && wrapS16(other.data) != 0 ==> ret0 == wrapW(tdiv(i, wrapS16(other.data)), 16, true)
+  ensures zero: other.flag == INT16_FLAG && wrapS16(other.data) == 0 ==> ret1.flag != UNDEFINED_FLAG
+
+func (Int16).ModuloVal
+  props C07
+  ensures accepted: other.flag == INT16_FLAG && wrapS16(other.data) != 0 ==> ret1 == Undefined
+  ensures value: other.flag == INT16_FLAG && wrapS16(other.data) != 0 ==> ret0 == wrapW(tmod(i, wrapS16(other.data)), 16, true)
+  ensures zero: other.flag == INT16_FLAG && wrapS16(other.data) == 0 ==> ret1.flag != UNDEFINED_FLAG
+
+func (Int16).DivideInt16
+  props C07
+  ensures accepted: other != 0 ==> ret1 == Undefined
+  ensures value: other != 0 ==> ret0 == wrapW(tdiv(i, other), 16, true)
+  ensures zero: other == 0 ==> ret1.flag != UNDEFINED_FLAG
+
+func (Int16).ModuloInt16
+  props C07
+  ensures accepted: other != 0 ==> ret1 == Undefined
+  ensures value: other != 0 ==> ret0 == wrapW(tmod(i, other), 16, true)
+  ensures zero: other == 0 ==> ret1.flag != UNDEFINED_FLAG
+
+func (Int16).ExponentiateInt16
+  props C07
+  ensures nonpos: other <= 0 ==> ret == 1
+  ensures one: other == 1 ==> ret == i
+  ensures try pow: other > 0 ==> ret == wrapW(ipow(i, other), 16, true)
+  loop 1
+    invariant bounds: 1 <= j && j <= other
+    invariant try acc: result == wrapW(ipow(i, j), 16, true)
+    invariant first: j == 1 ==> result == i
+    decreases other - j
+
+func (Int16).ExponentiateVal
+  props C07
+  ensures accepted: other.flag == INT16_FLAG ==> ret1 == Undefined
+
+func (Int16).LeftBitshiftInt16
+  props C07
+  ensures pos: other >= 0 ==> ret == shlW(i, other, 16, true)
+  ensures neg: other < 0 ==> ret == asrW(i, -other, 16)
+
+func (Int16).RightBitshiftInt16
+  props C07
+  ensures pos: other >= 0 ==> ret == asrW(i, other, 16)
+  ensures neg: other < 0 ==> ret == shlW(i, -other, 16, true)
+
+// ---- Int32
+func (Int32).Add
+  props C07
+  ensures accepted: other.flag == INT32_FLAG ==> ret1 == Undefined
+  ensures value: other.flag == INT32_FLAG ==> ret0 == wrapW(i + wrapS32(other.data), 32, true)
+
+func (Int32).Subtract
+  props C07
+  ensures accepted: other.flag == INT32_FLAG ==> ret1 == Undefined
+  ensures value: other.flag == INT32_FLAG ==> ret0 == wrapW(i - wrapS32(other.data), 32, true)
+
+func (Int32).Multiply
+  props C07
+  ensures accepted: other.flag == INT32_FLAG ==> ret1 == Undefined
+  ensures value: other.flag == INT32_FLAG ==> ret0 == wrapW(i * wrapS32(other.data), 32, true)
+
+func (Int32).BitwiseAnd
+  props C07
+  ensures accepted: other.flag == INT32_FLAG ==> ret1 == Undefined
+  ensures value: other.flag == INT32_FLAG ==> ret0 == i & wrapas(i, other.data)
+
+func (Int32).BitwiseAndNot
+  props C07
+  ensures accepted: other.flag == INT32_FLAG ==> ret1 == Undefined
+  ensures value: other.flag == INT32_FLAG ==> ret0 == i &^ wrapas(i, other.data)
+
+func (Int32).BitwiseOr
+  props C07
+  ensures accepted: other.flag == INT32_FLAG ==> ret1 == Undefined
+  ensures value: other.flag == INT32_FLAG ==> ret0 == i | wrapas(i, other.data)
+
+func (Int32).BitwiseXor
+  props C07
+  ensures accepted: other.flag == INT32_FLAG ==> ret1 == Undefined
+  ensures value: other.flag == INT32_FLAG ==> ret0 == i ^ wrapas(i, other.data)
+
+func (Int32).Divide
+  props C07
+  ensures accepted: other.flag == INT32_FLAG && wrapS32(other.data) != 0 ==> ret1 == Undefined
+  ensures value: other.flag == INT32_FLAG && wrapS32(other.data) != 0 ==> ret0 == wrapW(tdiv(i, wrapS32(other.data)), 32, true)
+  ensures zero: other.flag == INT32_FLAG && wrapS32(other.data) == 0 ==> ret1.flag != UNDEFINED_FLAG
+
+func (Int32).ModuloVal
+  props C07
+  ensures accepted: other.flag == INT32_FLAG && wrapS32(other.data) != 0 ==> ret1 == Undefined
+  ensures value: other.flag == INT32_FLAG && wrapS32(other.data) != 0 ==> ret0 == wrapW(tmod(i, wrapS32(other.data)), 32, true)
+  ensures zero: other.flag == INT32_FLAG && wrapS32(other.data) == 0 ==> ret1.flag != UNDEFINED_FLAG
+
+func (Int32).DivideInt32
+  props C07
+  ensures accepted: other != 0 ==> ret1 == Undefined
+  ensures value: other != 0 ==> ret0 == wrapW(tdiv(i, other), 32, true)
+  ensures zero: other == 0 ==> ret1.flag != UNDEFINED_FLAG
+
+func (Int32).ModuloInt32
+  props C07
+  ensures accepted: other != 0 ==> ret1 == Undefined
+  ensures value: other != 0 ==> ret0 == wrapW(tmod(i, other), 32, true)
+  ensures zero: other == 0 ==> ret1.flag != UNDEFINED_FLAG
+
+func (Int32).ExponentiateInt32
+  props C07
+  ensures nonpos: other <= 0 ==> ret == 1
+  ensures one: other == 1 ==> ret == i
+  ensures try pow: other > 0 ==> ret == wrapW(ipow(i, other), 32, true)
+  loop 1
+    invariant bounds: 1 <= j && j <= other
+    invariant try acc: result == wrapW(ipow(i, j), 32, true)
+    invariant first: j == 1 ==> result == i
+    decreases other - j
+
+func (Int32).ExponentiateVal
+  props C07
+  ensures accepted: other.flag == INT32_FLAG ==> ret1 == Undefined
+
+func (Int32).LeftBitshiftInt32
+  props C07
+  ensures pos: other >= 0 ==> ret == shlW(i, other, 32, true)
+  ensures neg: other < 0 ==> ret == asrW(i, -other, 32)
+
+func (Int32).RightBitshiftInt32
+  props C07
+  ensures pos: other >= 0 ==> ret == asrW(i, other, 32)
+  ensures neg: other < 0 ==> ret == shlW(i, -other, 32, true)
+
+// ---- Int64
+func (Int64).Add
+  props C07
+  ensures accepted: other.flag == INT64_FLAG ==> ret1 == Undefined
+  ensures value: other.flag == INT64_FLAG ==> ret0 == wrapW(i + wrapS64(other.data), 64, true)
+
+func (Int64).Subtract
+  props C07
+  ensures accepted: other.flag == INT64_FLAG ==> ret1 == Undefined
+  ensures value: other.flag == INT64_FLAG ==> ret0 == wrapW(i - wrapS64(other.data), 64, true)
+
+func (Int64).Multiply
+  props C07
+  ensures accepted: other.flag == INT64_FLAG ==> ret1 == Undefined
+  ensures value: other.flag == INT64_FLAG ==> ret0 == wrapW(i * wrapS64(other.data), 64, true)
+
+func (Int64).BitwiseAnd
+  props C07
+  ensures accepted: other.flag == INT64_FLAG ==> ret1 == Undefined
+  ensures value: other.flag == INT64_FLAG ==> ret0 == i & wrapas(i, other.data)
+
+func (Int64).BitwiseAndNot
+  props C07
+  ensures accepted: other.flag == INT64_FLAG ==> ret1 == Undefined
+  ensures value: other.flag == INT64_FLAG ==> ret0 == i &^ wrapas(i, other.data)
+
+func (Int64).BitwiseOr
+  props C07
+  ensures accepted: other.flag == INT64_FLAG ==> ret1 == Undefined
+  ensures value: other.flag == INT64_FLAG ==> ret0 == i | wrapas(i, other.data)
+
+func (Int64).BitwiseXor
+  props C07
+  ensures accepted: other.flag == INT64_FLAG ==> ret1 == Undefined
+  ensures value: other.flag == INT64_FLAG ==> ret0 == i ^ wrapas(i, other.data)
+
+func (Int64).Divide
+  props C07
+  ensures accepted: other.flag == INT64_FLAG && wrapS64(other.data) != 0 ==> ret1 == Undefined
+  ensures value: other.flag == INT64_FLAG && wrapS64(other.data) != 0 ==> ret0 == wrapW(tdiv(i, wrapS64(other.data)), 64, true)
+  ensures zero: other.flag == INT64_FLAG && wrapS64(other.data) == 0 ==> ret1.flag != UNDEFINED_FLAG
+
+func (Int64).ModuloVal
+  props C07
+  ensures accepted: other.flag == INT64_FLAG && wrapS64(other.data) != 0 ==> ret1 == Undefined
+  ensures value: other.flag == INT64_FLAG && wrapS64(other.data) != 0 ==> ret0 == wrapW(tmod(i, wrapS64(other.data)), 64, true)
+  ensures zero: other.flag == INT64_FLAG && wrapS64(other.data) == 0 ==> ret1.flag != UNDEFINED_FLAG
+
+func (Int64).DivideInt64
+  props C07
+  ensures accepted: other != 0 ==> ret1 == Undefined
+  ensures value: other != 0 ==> ret0 == wrapW(tdiv(i, other), 64, true)
+  ensures zero: other == 0 ==> ret1.flag != UNDEFINED_FLAG
+
+func (Int64).ModuloInt64
+  props C07
+  ensures accepted: other != 0 ==> ret1 == Undefined
+  ensures value: other != 0 ==> ret0 == wrapW(tmod(i, other), 64, true)
+  ensures zero: other == 0 ==> ret1.flag != UNDEFINED_FLAG
+
+func (Int64).ExponentiateInt64
+  props C07
+  ensures nonpos: other <= 0 ==> ret == 1
+  ensures one: other == 1 ==> ret == i
+  ensures try pow: other > 0 ==> ret == wrapW(ipow(i, other), 64, true)
+  loop 1
+    invariant bounds: 1 <= j && j <= other
+    invariant try acc: result == wrapW(ipow(i, j), 64, true)
+    invariant first: j == 1 ==> result == i
+    decreases other - j
+
+func (Int64).ExponentiateVal
+  props C07
+  ensures accepted: other.flag == INT64_FLAG ==> ret1 == Undefined
+
+func (Int64).LeftBitshiftInt64
+  props C07
+  ensures pos: other >= 0 ==> ret == shlW(i, other, 64, true)
+  ensures neg: other < 0 ==> ret == asrW(i, -other, 64)
+
+func (Int64).RightBitshiftInt64
+  props C07
+  ensures pos: other >= 0 ==> ret == asrW(i, other, 64)
+  ensures neg: other < 0 ==> ret == shlW(i, -other, 64, true)
+
+// ---- UInt8
+func (UInt8).Add
+  props C07
+  ensures accepted: other.flag == UINT8_FLAG ==> ret1 == Undefined
+  ensures value: other.flag == UINT8_FLAG ==> ret0 == wrapW(i + wrapU8(other.data), 8, false)
+
+func (UInt8).Subtract
+  props C07
+  ensures accepted: other.flag == UINT8_FLAG ==> ret1 == Undefined
+  ensures value: other.flag == UINT8_FLAG ==> ret0 == wrapW(i - wrapU8(other.data), 8, false)
+
+func (UInt8).Multiply
+  props C07
+  ensures accepted: other.flag == UINT8_FLAG ==> ret1 == Undefined
+  ensures value: other.flag == UINT8_FLAG ==> ret0 == wrapW(i * wrapU8(other.data), 8, false)
+
+func (UInt8).BitwiseAnd
+  props C07
+  ensures accepted: other.flag == UINT8_FLAG ==> ret1 == Undefined
+  ensures value: other.flag == UINT8_FLAG ==> ret0 == i & wrapas(i, other.data)
+
+func (UInt8).BitwiseAndNot
+  props C07
+  ensures accepted: other.flag == UINT8_FLAG ==> ret1 == Undefined
+  ensures value: other.flag == UINT8_FLAG ==> ret0 == i &^ wrapas(i, other.data)
+
+func (UInt8).BitwiseOr
+  props C07
+  ensures accepted: other.flag == UINT8_FLAG ==> ret1 == Undefined
+  ensures value: other.flag == UINT8_FLAG ==> ret0 == i | wrapas(i, other.data)
+
+func (UInt8).BitwiseXor
+  props C07
+  ensures accepted: other.flag == UINT8_FLAG ==> ret1 == Undefined
+  ensures value: other.flag == UINT8_FLAG ==> ret0 == i ^ wrapas(i, other.data)
+
+func (UInt8).Divide
+  props C07
+  ensures accepted: other.flag == UINT8_FLAG && wrapU8(other.data) != 0 ==> ret1 == Undefined
+  ensures value: other.flag == UINT8_FLAG && wrapU8(other.data) != 0 ==> ret0 == wrapW(tdiv(i, wrapU8(other.data)), 8, false)
+  ensures zero: other.flag == UINT8_FLAG && wrapU8(other.data) == 0 ==> ret1.flag != UNDEFINED_FLAG
+
+func (UInt8).ModuloVal
+  props C07
+  ensures accepted: other.flag == UINT8_FLAG && wrapU8(other.data) != 0 ==> ret1 == Undefined
+  ensures value: other.flag == UINT8_FLAG && wrapU8(other.data) != 0 ==> ret0 == wrapW(tmod(i, wrapU8(other.data)), 8, false)
+  ensures zero: other.flag == UINT8_FLAG && wrapU8(other.data) == 0 ==> ret1.flag != UNDEFINED_FLAG
+
+func (UInt8).DivideUInt8
+  props C07
+  ensures accepted: other != 0 ==> ret1 == Undefined
+  ensures value: other != 0 ==> ret0 == wrapW(tdiv(i, other), 8, false)
+  ensures zero: other == 0 ==> ret1.flag != UNDEFINED_FLAG
+
+func (UInt8).ModuloUInt8
+  props C07
+  ensures accepted: other != 0 ==> ret1 == Undefined
+  ensures value: other != 0 ==> ret0 == wrapW(tmod(i, other), 8, false)
+  ensures zero: other == 0 ==> ret1.flag != UNDEFINED_FLAG
+
+func (UInt8).ExponentiateUInt8
+  props C07
+  ensures nonpos: other <= 0 ==> ret == 1
+  ensures one: other == 1 ==> ret == i
+  ensures try pow: other > 0 ==> ret == wrapW(ipow(i, other), 8, false)
+  loop 1
+    invariant bounds: 1 <= j && j <= other
+    invariant try acc: result == wrapW(ipow(i, j), 8, false)
+    invariant first: j == 1 ==> result == i
+    decreases other - j
+
+func (UInt8).ExponentiateVal
+  props C07
+  ensures accepted: other.flag == UINT8_FLAG ==> ret1 == Undefined
+
+func (UInt8).LeftBitshiftUInt8
+  props C07
+  ensures shl: ret == shlW(i, other, 8, false)
+
+func (UInt8).RightBitshiftUInt8
+  props C07
+  ensures shr: ret == asrW(i, other, 8)
+
+// ---- UInt16
+func (UInt16).Add
+  props C07
+  ensures accepted: other.flag == UINT16_FLAG ==> ret1 == Undefined
+  ensures value: other.flag == UINT16_FLAG ==> ret0 == wrapW(i + wrapU16(other.data), 16, false)
+
+func (UInt16).Subtract
+  props C07
+  ensures accepted: other.flag == UINT16_FLAG ==> ret1 == Undefined
+  ensures value: other.flag == UINT16_FLAG ==> ret0 == wrapW(i - wrapU16(other.data), 16, false)
+
+func (UInt16).Multiply
+  props C07
+  ensures accepted: other.flag == UINT16_FLAG ==> ret1 == Undefined
+  ensures value: other.flag == UINT16_FLAG ==> ret0 == wrapW(i * wrapU16(other.data), 16, false)
+
+func (UInt16).BitwiseAnd
+  props C07
+  ensures accepted: other.flag == UINT16_FLAG ==> ret1 == Undefined
+  ensures value: other.flag == UINT16_FLAG ==> ret0 == i & wrapas(i, other.data)
+
+func (UInt16).BitwiseAndNot
+  props C07
+  ensures accepted: other.flag == UINT16_FLAG ==> ret1 == Undefined
+  ensures value: other.flag == UINT16_FLAG ==> ret0 == i &^ wrapas(i, other.data)
+
+func (UInt16).BitwiseOr
+  props C07
+  ensures accepted: other.flag == UINT16_FLAG ==> ret1 == Undefined
+  ensures value: other.flag == UINT16_FLAG ==> ret0 == i | wrapas(i, other.data)
+
+func (UInt16).BitwiseXor
+  props C07
+  ensures accepted: other.flag == UINT16_FLAG ==> ret1 == Undefined
+  ensures value: other.flag == UINT16_FLAG ==> ret0 == i ^ wrapas(i, other.data)
+
+func (UInt16).Divide
+  props C07
+  ensures accepted: other.flag == UINT16_FLAG && wrapU16(other.data) != 0 ==> ret1 == Undefined
+  ensures value: other.flag == UINT16_FLAG && wrapU16(other.data) != 0 ==> ret0 == wrapW(tdiv(i, wrapU16(other.data)), 16, false)
+  ensures zero: other.flag == UINT16_FLAG && wrapU16(other.data) == 0 ==> ret1.flag != UNDEFINED_FLAG
+
+func (UInt16).ModuloVal
+  props C07
+  ensures accepted: other.flag == UINT16_FLAG && wrapU16(other.data) != 0 ==> ret1 == Undefined
+  ensures value: other.flag == UINT16_FLAG && wrapU16(other.data) != 0 ==> ret0 == wrapW(tmod(i, wrapU16(other.data)), 16, false)
+  ensures zero: other.flag == UINT16_FLAG && wrapU16(other.data) == 0 ==> ret1.flag != UNDEFINED_FLAG
+
+func (UInt16).DivideUInt16
+  props C07
+  ensures accepted: other != 0 ==> ret1 == Undefined
+  ensures value: other != 0 ==> ret0 == wrapW(tdiv(i, other), 16, false)
+  ensures zero: other == 0 ==> ret1.flag != UNDEFINED_FLAG
+
+func (UInt16).ModuloUInt16
+  props C07
+  ensures accepted: other != 0 ==> ret1 == Undefined
+  ensures value: other != 0 ==> ret0 == wrapW(tmod(i, other), 16, false)
+  ensures zero: other == 0 ==> ret1.flag != UNDEFINED_FLAG
+
+func (UInt16).ExponentiateUInt16
+  props C07
+  ensures nonpos: other <= 0 ==> ret == 1
+  ensures one: other == 1 ==> ret == i
+  ensures try pow: other > 0 ==> ret == wrapW(ipow(i, other), 16, false)
+  loop 1
+    invariant bounds: 1 <= j && j <= other
+    invariant try acc: result == wrapW(ipow(i, j), 16, false)
+    invariant first: j == 1 ==> result == i
+    decreases other - j
+
+func (UInt16).ExponentiateVal
+  props C07
+  ensures accepted: other.flag == UINT16_FLAG ==> ret1 == Undefined
+
+func (UInt16).LeftBitshiftUInt16
+  props C07
+  ensures shl: ret == shlW(i, other, 16, false)
+
+func (UInt16).RightBitshiftUInt16
+  props C07
+  ensures shr: ret == asrW(i, other, 16)
+
+// ---- UInt32
+func (UInt32).Add
+  props C07
+  ensures accepted: other.flag == UINT32_FLAG ==> ret1 == Undefined
+  ensures value: other.flag == UINT32_FLAG ==> ret0 == wrapW(i + wrapU32(other.data), 32, false)
+
+func (UInt32).Subtract
+  props C07
+  ensures accepted: other.flag == UINT32_FLAG ==> ret1 == Undefined
+  ensures value: other.flag == UINT32_FLAG ==> ret0 == wrapW(i - wrapU32(other.data), 32, false)
+
+func (UInt32).Multiply
+  props C07
+  ensures accepted: other.flag == UINT32_FLAG ==> ret1 == Undefined
+  ensures value: other.flag == UINT32_FLAG ==> ret0 == wrapW(i * wrapU32(other.data), 32, false)
+
+func (UInt32).BitwiseAnd
+  props C07
+  ensures accepted: other.flag == UINT32_FLAG ==> ret1 == Undefined
+  ensures value: other.flag == UINT32_FLAG ==> ret0 == i & wrapas(i, other.data)
+
+func (UInt32).BitwiseAndNot
+  props C07
+  ensures accepted: other.flag == UINT32_FLAG ==> ret1 == Undefined
+  ensures value: other.flag == UINT32_FLAG ==> ret0 == i &^ wrapas(i, other.data)
+
+func (UInt32).BitwiseOr
+  props C07
+  ensures accepted: other.flag == UINT32_FLAG ==> ret1 == Undefined
+  ensures value: other.flag == UINT32_FLAG ==> ret0 == i | wrapas(i, other.data)
+
+func (UInt32).BitwiseXor
+  props C07
+  ensures accepted: other.flag == UINT32_FLAG ==> ret1 == Undefined
+  ensures value: other.flag == UINT32_FLAG ==> ret0 == i ^ wrapas(i, other.data)
+
+func (UInt32).Divide
+  props C07
+  ensures accepted: other.flag == UINT32_FLAG && wrapU32(other.data) != 0 ==> ret1 == Undefined
+  ensures value: other.flag == UINT32_FLAG && wrapU32(other.data) != 0 ==> ret0 == wrapW(tdiv(i, wrapU32(other.data)), 32, false)
+  ensures zero: other.flag == UINT32_FLAG && wrapU32(other.data) == 0 ==> ret1.flag != UNDEFINED_FLAG
+
+func (UInt32).ModuloVal
+  props C07
+  ensures accepted: other.flag == UINT32_FLAG && wrapU32(other.data) != 0 ==> ret1 == Undefined
+  ensures value: other.flag == UINT32_FLAG && wrapU32(other.data) != 0 ==> ret0 == wrapW(tmod(i, wrapU32(other.data)), 32, false)
+  ensures zero: other.flag == UINT32_FLAG && wrapU32(other.data) == 0 ==> ret1.flag != UNDEFINED_FLAG
+
+func (UInt32).DivideUInt32
+  props C07
+  ensures accepted: other != 0 ==> ret1 == Undefined
+  ensures value: other != 0 ==> ret0 == wrapW(tdiv(i, other), 32, false)
+  ensures zero: other == 0 ==> ret1.flag != UNDEFINED_FLAG
+
+func (UInt32).ModuloUInt32
+  props C07
+  ensures accepted: other != 0 ==> ret1 == Undefined
+  ensures value: other != 0 ==> ret0 == wrapW(tmod(i, other), 32, false)
+  ensures zero: other == 0 ==> ret1.flag != UNDEFINED_FLAG
+
+func (UInt32).ExponentiateUInt32
+  props C07
+  ensures nonpos: other <= 0 ==> ret == 1
+  ensures one: other == 1 ==> ret == i
+  ensures try pow: other > 0 ==> ret == wrapW(ipow(i, other), 32, false)
+  loop 1
+    invariant bounds: 1 <= j && j <= other
+    invariant try acc: result == wrapW(ipow(i, j), 32, false)
+    invariant first: j == 1 ==> result == i
+    decreases other - j
+
+func (UInt32).ExponentiateVal
+  props C07
+  ensures accepted: other.flag == UINT32_FLAG ==> ret1 == Undefined
+
+func (UInt32).LeftBitshiftUInt32
+  props C07
+  ensures shl: ret == shlW(i, other, 32, false)
+
+func (UInt32).RightBitshiftUInt32
+  props C07
+  ensures shr: ret == asrW(i, other, 32)
+
+// ---- UInt64
+func (UInt64).Add
+  props C07
+  ensures accepted: other.flag == UINT64_FLAG ==> ret1 == Undefined
+  ensures value: other.flag == UINT64_FLAG ==> ret0 == wrapW(i + wrapU64(other.data), 64, false)
+
+func (UInt64).Subtract
+  props C07
+  ensures accepted: other.flag == UINT64_FLAG ==> ret1 == Undefined
+  ensures value: other.flag == UINT64_FLAG ==> ret0 == wrapW(i - wrapU64(other.data), 64, false)
+
+func (UInt64).Multiply
+  props C07
+  ensures accepted: other.flag == UINT64_FLAG ==> ret1 == Undefined
+  ensures value: other.flag == UINT64_FLAG ==> ret0 == wrapW(i * wrapU64(other.data), 64, false)
+
+func (UInt64).BitwiseAnd
+  props C07
+  ensures accepted: other.flag == UINT64_FLAG ==> ret1 == Undefined
+  ensures value: other.flag == UINT64_FLAG ==> ret0 == i & wrapas(i, other.data)
+
+func (UInt64).BitwiseAndNot
+  props C07
+  ensures accepted: other.flag == UINT64_FLAG ==> ret1 == Undefined
+  ensures value: other.flag == UINT64_FLAG ==> ret0 == i &^ wrapas(i, other.data)
+
+func (UInt64).BitwiseOr
+  props C07
+  ensures accepted: other.flag == UINT64_FLAG ==> ret1 == Undefined
+  ensures value: other.flag == UINT64_FLAG ==> ret0 == i | wrapas(i, other.data)
+
+func (UInt64).BitwiseXor
+  props C07
+  ensures accepted: other.flag == UINT64_FLAG ==> ret1 == Undefined
+  ensures value: other.flag == UINT64_FLAG ==> ret0 == i ^ wrapas(i, other.data)
+
+func (UInt64).Divide
+  props C07
+  ensures accepted: other.flag == UINT64_FLAG && wrapU64(other.data) != 0 ==> ret1 == Undefined
+  ensures value: other.flag == UINT64_FLAG && wrapU64(other.data) != 0 ==> ret0 == wrapW(tdiv(i, wrapU64(other.data)), 64, false)
+  ensures zero: other.flag == UINT64_FLAG && wrapU64(other.data) == 0 ==> ret1.flag != UNDEFINED_FLAG
+
+func (UInt64).ModuloVal
+  props C07
+  ensures accepted: other.flag == UINT64_FLAG && wrapU64(other.data) != 0 ==> ret1 == Undefined
+  ensures value: other.flag == UINT64_FLAG && wrapU64(other.data) != 0 ==> ret0 == wrapW(tmod(i, wrapU64(other.data)), 64, false)
+  ensures zero: other.flag == UINT64_FLAG && wrapU64(other.data) == 0 ==> ret1.flag != UNDEFINED_FLAG
+
+func (UInt64).DivideUInt64
+  props C07
+  ensures accepted: other != 0 ==> ret1 == Undefined
+  ensures value: other != 0 ==> ret0 == wrapW(tdiv(i, other), 64, false)
+  ensures zero: other == 0 ==> ret1.flag != UNDEFINED_FLAG
+
+func (UInt64).ModuloUInt64
+  props C07
+  ensures accepted: other != 0 ==> ret1 == Undefined
+  ensures value: other != 0 ==> ret0 == wrapW(tmod(i, other), 64, false)
+  ensures zero: other == 0 ==> ret1.flag != UNDEFINED_FLAG
+
+func (UInt64).ExponentiateUInt64
+  props C07
+  ensures nonpos: other <= 0 ==> ret == 1
+  ensures one: other == 1 ==> ret == i
+  ensures try pow: other > 0 ==> ret == wrapW(ipow(i, other), 64, false)
+  loop 1
+    invariant bounds: 1 <= j && j <= other
+    invariant try acc: result == wrapW(ipow(i, j), 64, false)
+    invariant first: j == 1 ==> result == i
+    decreases other - j
+
+func (UInt64).ExponentiateVal
+  props C07
+  ensures accepted: other.flag == UINT64_FLAG ==> ret1 == Undefined
+
+func (UInt64).LeftBitshiftUInt64
+  props C07
+  ensures shl: ret == shlW(i, other, 64, false)
+
+func (UInt64).RightBitshiftUInt64
+  props C07
+  ensures shr: ret == asrW(i, other, 64)
+
+// ---- UInt
+func (UInt).Add
+  props C07
+  ensures accepted: other.flag == UINT_FLAG ==> ret1 == Undefined
+  ensures value: other.flag == UINT_FLAG ==> ret0 == wrapW(i + wrapU64(other.data), 64, false)
+
+func (UInt).Subtract
+  props C07
+  ensures accepted: other.flag == UINT_FLAG ==> ret1 == Undefined
+  ensures value: other.flag == UINT_FLAG ==> ret0 == wrapW(i - wrapU64(other.data), 64, false)
+
+func (UInt).Multiply
+  props C07
+  ensures accepted: other.flag == UINT_FLAG ==> ret1 == Undefined
+  ensures value: other.flag == UINT_FLAG ==> ret0 == wrapW(i * wrapU64(other.data), 64, false)
+
+func (UInt).BitwiseAnd
+  props C07
+  ensures accepted: other.flag == UINT_FLAG ==> ret1 == Undefined
+  ensures value: other.flag == UINT_FLAG ==> ret0 == i & wrapas(i, other.data)
+
+func (UInt).BitwiseAndNot
+  props C07
+  ensures accepted: other.flag == UINT_FLAG ==> ret1 == Undefined
+  ensures value: other.flag == UINT_FLAG ==> ret0 == i &^ wrapas(i, other.data)
+
+func (UInt).BitwiseOr
+  props C07
+  ensures accepted: other.flag == UINT_FLAG ==> ret1 == Undefined
+  ensures value: other.flag == UINT_FLAG ==> ret0 == i | wrapas(i, other.data)
+
+func (UInt).BitwiseXor
+  props C07
+  ensures accepted: other.flag == UINT_FLAG ==> ret1 == Undefined
+  ensures value: other.flag == UINT_FLAG ==> ret0 == i ^ wrapas(i, other.data)
+
+func (UInt).Divide
+  props C07
+  ensures accepted: other.flag == UINT_FLAG && wrapU64(other.data) != 0 ==> ret1 == Undefined
+  ensures value: other.flag == UINT_FLAG && wrapU64(other.data) != 0 ==> ret0 == wrapW(tdiv(i, wrapU64(other.data)), 64, false)
+  ensures zero: other.flag == UINT_FLAG && wrapU64(other.data) == 0 ==> ret1.flag != UNDEFINED_FLAG
+
+func (UInt).ModuloVal
+  props C07
+  ensures accepted: other.flag == UINT_FLAG && wrapU64(other.data) != 0 ==> ret1 == Undefined
+  ensures value: other.flag == UINT_FLAG && wrapU64(other.data) != 0 ==> ret0 == wrapW(tmod(i, wrapU64(other.data)), 64, false)
+  ensures zero: other.flag == UINT_FLAG && wrapU64(other.data) == 0 ==> ret1.flag != UNDEFINED_FLAG
+
+func (UInt).DivideUInt
+  props C07
+  ensures accepted: other != 0 ==> ret1 == Undefined
+  ensures value: other != 0 ==> ret0 == wrapW(tdiv(i, other), 64, false)
+  ensures zero: other == 0 ==> ret1.flag != UNDEFINED_FLAG
+
+func (UInt).ModuloUInt
+  props C07
+  ensures accepted: other != 0 ==> ret1 == Undefined
+  ensures value: other != 0 ==> ret0 == wrapW(tmod(i, other), 64, false)
+  ensures zero: other == 0 ==> ret1.flag != UNDEFINED_FLAG
+
+func (UInt).ExponentiateUInt
+  props C07
+  ensures nonpos: other <= 0 ==> ret == 1
+  ensures one: other == 1 ==> ret == i
+  ensures try pow: other > 0 ==> ret == wrapW(ipow(i, other), 64, false)
+  loop 1
+    invariant bounds: 1 <= j && j <= other
+    invariant try acc: result == wrapW(ipow(i, j), 64, false)
+    invariant first: j == 1 ==> result == i
+    decreases other - j
+
+func (UInt).ExponentiateVal
+  props C07
+  ensures accepted: other.flag == UINT_FLAG ==> ret1 == Undefined
+
+func (UInt).LeftBitshiftUInt
+  props C07
+  ensures shl: ret == shlW(i, other, 64, false)
+
+func (UInt).RightBitshiftUInt
+  props C07
+  ensures shr: ret == asrW(i, other, 64)
+
 @*/
